@@ -9,6 +9,7 @@ import (
 
 	"github.com/rqlite/rqlite/v10/db"
 	"github.com/rqlite/rqlite/v10/internal/rsum"
+	"github.com/rqlite/rqlite/v10/internal/vhook"
 	"github.com/rqlite/rqlite/v10/snapshot/sidecar"
 )
 
@@ -158,6 +159,8 @@ func (e *Executor) CopyFile(src, dst string) error {
 		return err
 	}
 	defer dstFd.Close()
+	vhook.Trace(dst, "plan.copy.created")
+	vhook.Crash("plan.copy.created")
 
 	if _, err := io.Copy(dstFd, srcFd); err != nil {
 		return err
